@@ -3,18 +3,19 @@
   `ok = true`, destination well formed, every other variable untouched, value-level view = the list-level result;
   plus the integer identity).  Property theorems only; helper lemmas live in MpirProofs/Lemmas/AllocSafeSpec.lean
   (value identities of `Spec.com`, `Spec.tdiv_q_2exp`), AllocSafeCore2.lean (read operands incl. temporary space,
-  the `Wrote` invariant), AllocSafeLogic.lean (mpz/and.c), AllocSafeMul.lean (mpz/mul_i.h).
+  the `Wrote` invariant), AllocSafeLogic.lean (mpz/and.c), AllocSafeXor.lean (mpz/xor.c), AllocSafeMul.lean (mpz/mul_i.h).
 
   Models: Mpir/Model/AllocSafeMpz.lean (com, tdiv_q_2exp), Mpir/Model/AllocSafeMpz2.lean (and, ior, xor, mul_ui).
   Tied by ops `as_com`, `as_tdiv_q_2exp` (part c04_allocsafe) and `as2_and`, `as2_ior`, `as2_xor`, `as2_mul_ui`
   (harness/ops_allocsafe2.c; ALLOC SIZ value compared exactly) and pins on every C file mirrored.
-  mpz_ior and mpz_xor are mirrored and tied (every sign case, every alias mode) but have no theorem yet.
+  mpz_ior is mirrored and tied (every sign case, every alias mode) but has no theorem yet.
 -/
 import MpirProofs.Props.C04_allocsafe
 import MpirProofs.Props.C10
 import MpirProofs.Lemmas.AllocSafeSpec
 import MpirProofs.Lemmas.AllocSafeLogic
 import MpirProofs.Lemmas.AllocSafeMul
+import MpirProofs.Lemmas.AllocSafeXor
 import MpirProofs.Props.C01_mpz
 namespace Mpir.AllocSafe
 open Mpir
@@ -91,6 +92,36 @@ example : (and_ true 0 ex2 0 1 2).ok = false := by decide
 example : (and_ false 1 ⟨fun i => if i = 1 then ⟨-1, 0, ⟨1, [4]⟩⟩ else ⟨2, 0, ⟨2, [B - 1, B - 1]⟩⟩, true⟩ 1 2 1).ok = true ∧
     view ((and_ false 1 ⟨fun i => if i = 1 then ⟨-1, 0, ⟨1, [4]⟩⟩ else ⟨2, 0, ⟨2, [B - 1, B - 1]⟩⟩, true⟩ 1 2 1).h 1)
       = ⟨2, 2, [B - 4, B - 1]⟩ := by decide
+
+/-- mpz_xor (mpz/xor.c), every sign case and alias pattern: `MAX (sizes)` limbs for ++ and --, `MAX (sizes) + 1` for +-
+    (the `+ 1` of `-(x) = ~x + 1` may carry into a new top limb), operands decremented into temporary space, the
+    `if (res_ptr != op1_ptr) MPN_COPY` of the in-place ++ case, the pointers re-read after `_mpz_realloc`; MPN_NORMALIZE
+    reads only what was written; the result is the two's-complement XOR. -/
+theorem mpz_xor_alloc_safe (s : St) (w u v : Nat) (hs : s.ok = true)
+    (hw : OWF (s.h w)) (hu : OWF (s.h u)) (hv : OWF (s.h v)) :
+    Safe s (mpz_xor s w u v) w (Spec.xor (view (s.h w)) (view (s.h u)) (view (s.h v))) ∧
+    Mpz.toInt (view ((mpz_xor s w u v).h w)) = Int.xor (Mpz.toInt (view (s.h u))) (Mpz.toInt (view (s.h v))) := by
+  have R := xor_refines s w u v hs hw hu hv
+  obtain ⟨hval, hzwf⟩ := Bits.mpz_xor_spec (zOf (view (s.h u))) (zOf (view (s.h v))) (zOf_WF hu.2) (zOf_WF hv.2)
+  have E : Mpz.WF (Spec.xor (view (s.h w)) (view (s.h u)) (view (s.h v))) ∧
+      Mpz.toInt (Spec.xor (view (s.h w)) (view (s.h u)) (view (s.h v))) =
+        (Bits.mpz_xor (zOf (view (s.h u))) (zOf (view (s.h v)))).toInt := by
+    unfold Spec.xor
+    exact ofZ_spec _ _ hzwf (Nat.le_trans (xor_need_le _ _ hu.2 hv.2) (Mpz.grow_alloc _ _).1)
+      (Nat.le_trans hw.2.1 (Mpz.grow_alloc _ _).2)
+  refine ⟨R.safe E.1, ?_⟩
+  rw [R.view, E.2, hval, zOf_toInt, zOf_toInt]
+
+-- (B^2-1) ^ -(B) in place on op1 and on op2 (one-limb-longer allocation); -(B) ^ -(B^2-1) = (B-1) ^ (B^2-2) = B^2 - B + 1
+example : (mpz_xor ex2 3 3 1).ok = true ∧ Mpz.toInt (view ((mpz_xor ex2 3 3 1).h 3)) = Int.xor (B ^ 2 - 1) (-(B : Int)) := by decide
+example : (mpz_xor ex2 1 3 1).ok = true ∧ (mpz_xor ex2 1 3 1).ALLOC 1 = 3 := by decide
+example : (mpz_xor ex2 0 1 2).ok = true ∧ view ((mpz_xor ex2 0 1 2).h 0) = ⟨2, 2, [1, B - 1]⟩ := by decide
+-- (B^2-1) ^ -1 = -(B^2): the +- case carries into a third limb
+example : view ((mpz_xor ⟨fun i => if i = 0 then ⟨2, 0, ⟨2, [B - 1, B - 1]⟩⟩ else ⟨-1, 0, ⟨1, [1]⟩⟩, true⟩ 0 0 1).h 0)
+    = ⟨3, -3, [0, 0, 1]⟩ := by decide
+-- negative: `res_alloc = MAX (op1_size, op2_size)` without the `+ 1` in the +- case — the carry store is outside the block
+example : (xor_ true 0 ⟨fun i => if i = 0 then ⟨2, 0, ⟨2, [B - 1, B - 1]⟩⟩ else ⟨-1, 0, ⟨1, [1]⟩⟩, true⟩ 0 0 1).ok = false := by
+  decide
 
 /-- mpz_mul_ui (mpz/mul_i.h): `MPZ_REALLOC (prod, size + 1)` covers `pp[size] = cy`, also in place; exact product. -/
 theorem mpz_mul_ui_alloc_safe (s : St) (w u : Nat) (v : Nat) (hs : s.ok = true)
